@@ -57,7 +57,7 @@ pub const KEYS: &[&str] = &["ca", "nu", "1a", "CA", "aa", "a1", "c", "cal", "h0"
 pub const TKEYS: &[&str] = &["h0", "k0", "H0", "a0", "0h", "ca", "h", "h00", ""];
 pub const TAGS: &[&str] = &["a", "u", "x", "t", "aaa", "bbb", "BBB", "abcdefgh", "1", "abcdefghi", "", "a-b"];
 pub const VARIANTS: &[&str] = &["valencia", "VALENCIA", "1abc", "macos", "12345", "abcde", "1ab2", "abcd", "abc", "toolongxxx"];
-pub const LANGS: &[&str] = &["en", "fr", "und", "EN", "zh", "ar", "sr", "abcde", "abcd", "e"];
+pub const LANGS: &[&str] = &["en", "fr", "und", "UND", "Und", "EN", "zh", "ar", "sr", "abcde", "abcdefgh", "ABCDEF", "haw", "abcd", "e"];
 pub const SCRIPTS: &[&str] = &["Latn", "latn", "Cyrl", "Arab", "Hant", "Qqqq", "abc"];
 pub const REGIONS: &[&str] = &["US", "us", "GB", "TW", "001", "RS", "1", "USA"];
 pub const TLANGS: &[&str] = &["en", "en-US", "und", "fr-Latn-CA-valencia", "zh-hant", "de-1996-1901", "e", "en-"];
@@ -170,7 +170,9 @@ pub fn op_json(op: &Op) -> Value {
 
 pub fn apply_lib(loc: &mut Locale, op: &Op) -> Out {
     match op {
-        Op::SetLanguage(t) => match t.parse::<Language>() {
+        // the two public text -> Language routes alternate (FromStr / TryFrom<Option<&str>>),
+        // decided by the argument so that the choice is a function of the case
+        Op::SetLanguage(t) => match if t.len() % 2 == 0 { t.parse::<Language>() } else { <Language as std::convert::TryFrom<Option<&str>>>::try_from(Some(t.as_str())) } {
             Ok(l) => {
                 loc.id.language = l;
                 Out::Unit
